@@ -97,8 +97,14 @@ impl LocalSpan {
     {
         #[cfg(feature = "enable")]
         if let Some(LocalSpanInner { stack, span_handle }) = &self.inner {
-            let span_stack = &mut *stack.borrow_mut();
-            span_stack.with_properties(span_handle, properties);
+            // The closure may call back into the tracing API, so it must run while the span
+            // stack is not borrowed.
+            let is_recording = stack.borrow_mut().is_recording(span_handle);
+            if is_recording {
+                let properties = properties();
+                let span_stack = &mut *stack.borrow_mut();
+                span_stack.with_properties(span_handle, || properties);
+            }
         }
 
         self
@@ -150,8 +156,14 @@ impl LocalSpan {
         {
             LOCAL_SPAN_STACK
                 .try_with(|s| {
-                    let span_stack = &mut s.borrow_mut();
-                    span_stack.add_properties(properties);
+                    // The closure may call back into the tracing API, so it must run while
+                    // the span stack is not borrowed.
+                    let is_recording = s.borrow_mut().is_current_recording();
+                    if is_recording {
+                        let properties = properties();
+                        let span_stack = &mut s.borrow_mut();
+                        span_stack.add_properties(|| properties);
+                    }
                     Some(())
                 })
                 .ok();
